@@ -44,6 +44,25 @@ def run_oset(ops):
     return out
 
 
+def run_monitor(ops):
+    import queue
+    from labtech.runners.process import ProcessEndEvent, ProcessMonitor, ProcessStartEvent
+    q = queue.Queue()
+    mon = ProcessMonitor(process_event_queue=q)
+    out = []
+    for op, arg in ops:
+        if op == 'start':
+            q.put(ProcessStartEvent(task_name=arg, pid=1, use_cache=False))
+            out.append('none')
+        elif op == 'end':
+            q.put(ProcessEndEvent(task_name=arg))
+            out.append('none')
+        else:
+            mon._consume_monitor_queue()
+            out.append('<<' + ', '.join(f'"{x}"' for x in mon.active_process_events) + '>>')
+    return out
+
+
 def main():
     jobs = json.load(open(sys.argv[1]))
     with open(sys.argv[2], 'w') as out:
@@ -52,8 +71,10 @@ def main():
                 rec = {'tid': f'{job["id"]}-{k}', 'id': f'{job["id"]}-{k}', 'ops': ops}
                 if job['which'] == 'proxy':
                     rec['delivered'] = run_proxy(ops)
-                else:
+                elif job['which'] == 'oset':
                     rec['replies'] = run_oset(ops)
+                else:
+                    rec['replies'] = run_monitor(ops)
                 out.write(json.dumps(rec) + '\n')
 
 
